@@ -6,14 +6,14 @@ def _c05_variants(tier):
 
 reg("C05",
     level="model_checking",
-    technique="full 4x4x4 product of encryption option placements (4 generated servers x 4 services x 4 characteristics) checked through the real server::l2cap_input/l2cap_output: placement product x 4 link security states (enumeration) plus, per characteristic, an explicit-state BFS over server + connection + bound memory with link-state changes, all read/write request kinds, CCCD accesses and notify/indicate output; reference = inheritance rule taken from the doxygen of encryption.hpp",
+    technique="full 4x4x4 product of encryption option placements (4 generated servers x 4 services x 4 characteristics) checked through the real server::l2cap_input/l2cap_output: placement product x 4 link security states (enumeration) plus, per characteristic, an explicit-state BFS over server + connection + bound memory with link-state changes, all read/write request kinds, CCCD accesses and notify/indicate output; reference = inheritance rule of encryption.hpp (nearest requires_encryption / no_encryption_required wins, may_require_encryption transparent)",
     rule="one evaluation = one real l2cap_input / l2cap_output / notify / indicate call on a restored byte image (server object incl. write queue, connection incl. CCCDs + notification queue + link state, all bound values); states de-duplicated on that image; classes = distinct (request kind, link security state, placement class, response class) and (placement class, deciding level, attribute, link, response class)",
-    bound="all 64 placements x {unencrypted/no key, unencrypted/unauthenticated key, unencrypted/authenticated key, encrypted} x {value, CCCD}; histories from the encrypted state: quick: depth 8 for protected placements (reaches the fixpoint on the unchanged tree), depth 5 for the others; thorough: all reachable states (fixpoint) for protected placements, depth 8 for the others; alphabet 40 events per characteristic (4 link states, Read, Read Blob offsets 0/1/4, 5 Read By Type, up to 5 Read Multiple, Write 4/0 bytes, Write Command, Prepare x2, Execute 0/1, CCCD Read/Read Blob/Write 1,2,0/Write Command 3, notify, indicate, l2cap_output, Confirmation)",
+    bound="all 64 placements x {unencrypted/no key, unencrypted/unauthenticated key, unencrypted/authenticated key, encrypted} x {value, CCCD}; histories from the encrypted state: quick: depth 6 for the 28 protected placements, depth 5 for the others; thorough: all reachable states (fixpoint) for protected placements, depth 8 for the others; alphabet 40 events per characteristic (4 link states, Read, Read Blob offsets 0/1/4, 5 Read By Type, up to 5 Read Multiple, Write 4/0 bytes, Write Command, Prepare x2, Execute 0/1, CCCD Read/Read Blob/Write 1,2,0/Write Command 3, notify, indicate, l2cap_output, Confirmation)",
     units=[dict(src="harness/C05_encryption.cpp",
                 variants=_c05_variants)],
     quick_deadline=60, thorough_deadline=500,
     assumptions=[
-        "reference rule from the documentation: the innermost level (characteristic, service, server) carrying any of the three options decides and protects iff it is requires_encryption; may_require_encryption on a bound value means 'not required' (@attention in encryption.hpp). The implementation lets may_require_encryption inherit the outer level (stricter); nothing is demanded for those 7 placements (chr=may under svc=req; chr=may or svc=may directly under srv=req), they are reported as classes/notes only",
+        "reference = the library's inheritance semantics as documented for requires_encryption / no_encryption_required ('applies to all containing characteristics, where it can be overridden'): the nearest level (characteristic, service, server) that says requires_encryption or no_encryption_required decides; may_require_encryption is transparent for bound values (it only adds the support code; the @attention note in encryption.hpp is about handlers that decide on their own), so the 7 placements with may_require_encryption below a requiring level are protected and judged like the other 21 (28 protected placements of 64; their violations carry ':through-may')",
         "only the direction stated by the property is demanded (protected and unencrypted => refused, nothing exposed, nothing modified); availability on encrypted links (e.g. Prepare Write always refused for protected values) belongs to C07",
         "error code demanded for single-attribute requests and for the failing attribute of Read Multiple; Read By Type only checked for non-exposure; Execute Write only for 'memory unchanged'; Read Blob offsets <= value length (beyond that Invalid Offset vs. security error is not fixed by the property)",
         "Prepare Write to a CCCD is not sent (null dereference of the client configuration there is C01's finding)",
